@@ -122,6 +122,29 @@ func drawStream(t *rapid.T, o streamOpts) *incrStream {
 				add(bb("multi"))
 				st.cmds[len(st.cmds)-1].inTx = false
 			}
+		case (k == 16 || k == 17) && !inTx && !o.noMulti && o.selectInTx && !o.noSelect:
+			// a transaction that hops into another database and ends there
+			add(bb("multi"))
+			st.cmds[len(st.cmds)-1].inTx = false
+			inTx = true
+			if rapid.Bool().Draw(t, "hopFirst") {
+				add(bb("set", key(), val()))
+			}
+			add(bb("select", strconv.Itoa(dbgen.Draw(t, "db"))))
+			add(bb("set", key(), val()))
+			add(bb("exec"))
+			inTx = false
+			if rapid.Bool().Draw(t, "hopBack") {
+				// ... followed by a transaction in a (possibly different) database
+				add(bb("select", strconv.Itoa(dbgen.Draw(t, "db"))))
+				add(bb("multi"))
+				st.cmds[len(st.cmds)-1].inTx = false
+				inTx = true
+				add(bb("set", key(), val()))
+				add(bb("exec"))
+				inTx = false
+				add(bb("set", key(), val()))
+			}
 		case k == 4:
 			add(bb("publish", "__sentinel__:hello", "127.0.0.1,26379,abc"))
 		case k == 5:
